@@ -119,6 +119,14 @@ func init() {
 			}
 			return mkInt(64, ^uint64(0))
 		},
+		"strings.Compare": func(e *Engine, a []Value) Value {
+			x, y := a[0].(Str), a[1].(Str)
+			if x.isC() && y.isC() {
+				return mkInt(64, uint64(int64(strings.Compare(x.S, y.S))))
+			}
+			lt, eq := strLess(x, y)
+			return fromTermI(mkIte(lt, bvConst(64, ^uint64(0)), mkIte(eq, bvConst(64, 0), bvConst(64, 1))))
+		},
 		"strings.EqualFold": func(e *Engine, a []Value) Value {
 			x, y := mToLower(e, []Value{a[0]}).(Str), mToLower(e, []Value{a[1]}).(Str)
 			return fromTermB(strEq(x, y))
